@@ -23,8 +23,9 @@ def one(sid):
         for p in props:
             rc, o = sh(f"./check {p} quick", cwd="/verif", env=env)
             if rc != 0:
-                rules = sorted({l.split("[")[1].split("]")[0] for l in o.splitlines() if "[" in l and "]" in l and (l.startswith("  numba") or l.startswith("ANALYSIS"))})
-                fired[p] = {"exit": rc, "rules": rules, "first_line": next((l for l in o.splitlines() if l.startswith("  numba") or l.startswith("ANALYSIS-ERROR")), "")[:300]}
+                rules = sorted({l.split("[")[1].split("]")[0] for l in o.splitlines() if "[" in l and "]" in l and l.startswith("  numba")})
+                err_rules = sorted({l.split("[")[1].split("]")[0] for l in o.splitlines() if "[" in l and "]" in l and l.startswith("ANALYSIS")})
+                fired[p] = {"exit": rc, "rules": rules, "error_rules": err_rules, "first_line": next((l for l in o.splitlines() if l.startswith("  numba") or l.startswith("ANALYSIS-ERROR")), "")[:300]}
         return sid, fired
     finally:
         sh(f"git -C /repo worktree remove --force {wt}")
